@@ -1,11 +1,17 @@
-"""C17 - each index container behaves as a sorted multimap (sequential part; concurrent part: see c17conc).
+"""C17 - each index container behaves as a sorted multimap, also under concurrency.
 
 Oracle: spec/Multimap (set of (key, row id) entries; Point / Range answers).  The driver operates the
 index objects of real tables (skip list, unique skip list, B-tree, hash) through the index.Index
 interface: seeded sequences with an insert-heavy phase (node splits) and a delete-heavy phase (empty
 nodes), duplicates under hot keys, adjacent keys, extremes (MinInt32, +-3.4e38, denormals, empty string),
 30- and 380-byte strings, key-changing updates; every 50 operations a battery of point lookups and
-full / bounded / half-open ordered scans.  TLC replays the trace on Multimap and compares every answer."""
+full / bounded / half-open ordered scans.  TLC replays the trace on Multimap and compares every answer.
+Concurrent clause: windows in which 4 goroutines insert / delete their own entries and look keys up on one
+shared index (skip list, B-tree; three key types) while one of them runs ordered scans, over a set of
+sentinel entries that are never touched; invoke / return events ordered by a shared atomic counter; TLC
+(MultimapHistoryTrace) decides with silent linearization steps whether the history is explainable:
+point operations atomic, scans in key order, each entry once, containing every entry present throughout
+the scan (the sentinels) and nothing that was never present during it."""
 import os, collections
 import vlib
 from vlib import Inconclusive
@@ -41,6 +47,21 @@ def check(ctx):
     with open(tr, "w") as out:
         for p in parts:
             out.write(open(p).read())
+    # concurrent clause
+    DEQUE = {"JAVA_TOOL_OPTIONS": "-Dtlc2.tool.queue.IStateQueue=StateDeque"}
+    conc = collections.Counter()
+    for procs in (4, 16):
+        h = os.path.join(ctx.work, "idxconc-p%d.ndjson" % procs)
+        vlib.vdrive(ctx, ["idx", "conc", h, 36 if thorough else 9, 4, 40, procs], timeout=3000, ok_codes=(0, 3),
+                    env={"VERIF_SEED": str(ctx.seed * 13 + procs)})
+        res = vlib.validate(ctx, FAM, "MultimapHistoryTrace", "History.cfg", h, name="val-idxconc-p%d" % procs, env=DEQUE, timeout=3000)
+        judge(ctx, res, h, "concurrent index history (GOMAXPROCS=%d)" % procs)
+        for e in vlib.read_ndjson(h):
+            if e["ev"] == "Inv":
+                conc[e["k"]] += 1
+    for k in ("ins", "del", "point", "scan"):
+        if conc[k] == 0:
+            raise Inconclusive("vacuous: no concurrent %s" % k)
     c = count_events(tr)
     kinds = collections.Counter()
     maxlive = 0
@@ -58,7 +79,8 @@ def check(ctx):
         states=ctx.states, transitions=ctx.transitions, traces_validated_against_impl=ctx.traces,
         samples=ctx.samples, exhaustive=False, events=dict(c),
         probes_by_kind_and_key_type={"%s/%s" % k: v for k, v in kinds.items()}, largest_full_scan=maxlive,
+        concurrent_calls=dict(conc),
         events_validated=ctx.events),
-        ["sequential use only in this check; the concurrent clause (atomicity of completed operations, untouched entries always found) is not yet covered",
+        ["concurrent windows: Go scheduling is sampled (seeds x GOMAXPROCS 4 / 16), 4 goroutines x 40 operations per window; order from one shared atomic counter",
          "unique kinds are driven with at most one row id per key; hash index: point operations only",
          "TLC trace validation against Multimap"])
